@@ -35,6 +35,34 @@ def tol_reward(ref):
 REUSE_OK = {"tsp", "atsp", "mtsp", "mtvrp", "fjsp", "jssp", "flp", "dpp", "mdpp", "smtwtp"}
 
 
+def reset_preserves_instance(name, td_in, td0):
+    """-> None or (key, message). Keys of the input that reappear in the reset state must be equal, or equal after the
+    depot's entry at index 0 (locs, prize, penalty ...). Known documented transforms: OP max_length (per-node remaining
+    length), MDCPDP locs (depots prepended)."""
+    for k in td_in.keys():
+        v = td_in[k]
+        if not isinstance(v, torch.Tensor) or k not in td0.keys():
+            continue
+        w = td0[k]
+        if (name, k) in (("op", "max_length"),):
+            continue
+        if name == "mdcpdp" and k == "locs":
+            if not torch.equal(w, torch.cat((td_in["depot"].reshape(v.shape[0], -1, 2), v), 1)):
+                return k, "locs of the reset state are not depots + customers of the instance"
+            continue
+        if v.shape == w.shape:
+            if not torch.equal(v, w):
+                return k, f"key '{k}' differs between the instance and the reset state"
+        elif w.dim() == v.dim() and w.dim() >= 2 and w.shape[1] == v.shape[1] + 1 and w.shape[2:] == v.shape[2:]:
+            if not torch.equal(w[:, 1:], v):
+                return k, f"key '{k}' of the reset state is not the instance's with one leading (depot) entry"
+            if k == "locs" and "depot" in td_in.keys() and not torch.equal(w[:, 0], td_in["depot"].reshape(w[:, 0].shape)):
+                return k, "entry 0 of locs in the reset state is not the instance's depot"
+        else:
+            return k, f"key '{k}' changes shape {tuple(v.shape)} -> {tuple(w.shape)} on reset"
+    return None
+
+
 def routing_case(ctx, case, monitors):
     cfg, family, B, seed = case["cfg"], case["family"], case["B"], case["s"]
     if case.get("reuse") and cfg["env"] not in REUSE_OK:
@@ -55,6 +83,14 @@ def routing_case(ctx, case, monitors):
     td0 = ep.td0
     # static instance fields for the oracles: in reuse mode from a reset of the pristine copy, not of the reused object
     td0_src = env.reset(td_pristine.clone()) if case.get("reuse") else td0
+    # reset must hand the instance on unchanged: every key of the input is carried as is, or with the depot's entry
+    # prepended (the oracles read several static fields from the reset state, so this is what justifies them)
+    bad_key = reset_preserves_instance(cfg["env"], td_pristine, td0_src)
+    ctx.count("reset_instance_key_checks")
+    if bad_key:
+        ctx.evaluation()
+        ctx.violation(sig_of(cfg, q="reset_alters_instance", key=bad_key[0]), f"env.reset changed instance data: {bad_key[1]}", None)
+        return
     insts = [O.extract(td_pristine, td0_src, b, env) for b in range(B)]
     ctx.count("episodes")
     ctx.count("env_steps", len(ep.actions))
